@@ -289,3 +289,151 @@ def peer_ends_during_local_traffic(source: int, reason: int, release: bool, busy
     ok = err == (('release',) if release else ('abort', source, reason))
     deep(ok and busy and not release and source == 2 and reason == 6)
     return ok
+# ------------------------------------------------------------------------------------------------
+# requested associations through the public API over the real provider, facing scripted peers (octets)
+# ------------------------------------------------------------------------------------------------
+
+VERIF_SOP = '1.2.840.10008.1.1'
+
+
+def _client_ae():
+    from pynetdicom2 import applicationentity, sopclass
+    ae = applicationentity.ClientAE('LOCAL', ['1.2.840.10008.1.2'], 16384)
+    ae.add_scu(sopclass.verification_scu)
+    return ae
+
+
+def _ac_for(raw_rq):
+    from vt.harness import assoc as A
+    return pdu.AAssociateAcPDU('REMOTE', 'LOCAL', [
+        pdu.ApplicationContextItem(A.APP_CTX),
+        pdu.PresentationContextItemAC(1, 0, pdu.TransferSyntaxSubItem('1.2.840.10008.1.2')),
+        A.user_info(16384)]).encode()
+
+
+def _echo_rsp_wire(mid):
+    from pynetdicom2 import dimsemessages as dm
+    m = dm.CEchoRSPMessage()
+    m.message_id_being_responded_to = mid
+    m.sop_class_uid = VERIF_SOP
+    m.status = 0
+    m.set_length()
+    return b''.join(p.encode() for p in m.encode(1, 16384))
+
+
+@cond(bounds='requested association over the REAL provider facing a scripted peer (octets): the peer answers a C-ECHO-RQ '
+             'with the C-ECHO-RSP and, in the SAME transport segment, an A-ABORT with symbolic (source, reason) - or an '
+             'A-RELEASE-RQ - and closes the connection at once (symbolic) or keeps it open: the user first receives the '
+             'response, then the library error with source and reason unchanged', timeout=240)
+def abort_behind_response(source: int, reason: int, release: bool, closes: bool) -> bool:
+    """
+    pre: 0 <= source <= 255 and 0 <= reason <= 255
+    post: _
+    """
+    from vt import sim
+    from vt.harness import live as L
+    from pynetdicom2 import dimsemessages as dm
+    with sim._no_tracing():
+        L.install(sim.SimClock(1000))
+        ae = _client_ae()
+    tail = pdu.AReleaseRqPDU().encode() if release else bytes([7, 0, 0, 0, 0, 4, 0, 0, source, reason])
+
+    def react(new):
+        out = []
+        for raw in new:
+            if raw[0] == 1:
+                out.append(_ac_for(raw))
+            elif raw[0] == 4:
+                out.append(_echo_rsp_wire(7) + tail)
+                if closes:
+                    out.append(b'')
+        return out
+    lr = L.LiveRequester(ae, {'aet': 'REMOTE', 'address': 'h', 'port': 104}, react)
+    lr.asce.request()
+    rq = dm.CEchoRQMessage()
+    rq.message_id = 7
+    rq.sop_class_uid = VERIF_SOP
+    lr.asce.send(rq, 1)
+    msg, cid = lr.asce.receive()
+    ok = cid == 1 and type(msg) is dm.CEchoRSPMessage
+    err = None
+    try:
+        lr.asce.receive()
+    except exceptions.AssociationAbortedError as e:
+        err = ('abort', e.source, e.reason_diag)
+    except exceptions.AssociationReleasedError:
+        err = ('release',)
+    except exceptions.NetDICOMError as e:
+        err = ('other', type(e).__name__)
+    ok = ok and err == (('release',) if release else ('abort', source, reason)) and lr.pump.err is None
+    deep(ok and closes and not release and source == 2 and reason == 6)
+    return ok
+
+
+@cond(bounds='public API, nested requested associations (forwarding use) over real providers and scripted peers: inside an '
+             'established outer association an inner one is requested and is refused with symbolic (result, source, '
+             'reason) - or accepted and then aborted by its peer with symbolic (source, reason) on the first message '
+             '(one instance each): the inner error surfaces with its values unchanged, and the OUTER association - left '
+             'through that error - is aborted: exactly one A-ABORT and no A-RELEASE-RQ on its connection',
+      family={'inner': ['rejected', 'aborted']}, timeout=240)
+def nested_association_failure(a: int, b: int, c: int) -> bool:
+    """
+    pre: 1 <= a <= 2 and 0 <= b <= 255 and 0 <= c <= 255
+    post: _
+    """
+    from vt import sim
+    from vt.harness import live as L
+    from pynetdicom2 import dimsemessages as dm
+    with sim._no_tracing():
+        L.install(sim.SimClock(1000))
+        ae = _client_ae()
+    inner_kind = fam('inner')
+
+    def outer_react(new):
+        out = []
+        for raw in new:
+            if raw[0] == 1:
+                out.append(_ac_for(raw))
+            elif raw[0] == 5:
+                out.append(pdu.AReleaseRpPDU().encode())
+            elif raw[0] == 7:
+                out.append(b'')
+        return out
+
+    def inner_react(new):
+        out = []
+        for raw in new:
+            if raw[0] == 1:
+                out.append(bytes([3, 0, 0, 0, 0, 4, 0, a, b, c]) if inner_kind == 'rejected' else _ac_for(raw))
+            elif raw[0] == 4:
+                out.append(bytes([7, 0, 0, 0, 0, 4, 0, 0, b, c]))
+            elif raw[0] == 7:
+                out.append(b'')
+        return out
+    so, si = L.StepSocket(), L.StepSocket()
+    L.LiveDulModule.queue = [(so, L.PeerBot(outer_react)), (si, L.PeerBot(inner_react))]
+    err = None
+    reached_inner_body = False
+    try:
+        with ae.request_association({'aet': 'REMOTE', 'address': 'a', 'port': 104}) as outer:
+            with ae.request_association({'aet': 'OTHER', 'address': 'b', 'port': 104}) as inner:
+                reached_inner_body = True
+                rq = dm.CEchoRQMessage()
+                rq.message_id = 7
+                rq.sop_class_uid = VERIF_SOP
+                inner.send(rq, 1)
+                inner.receive()
+    except exceptions.AssociationRejectedError as e:
+        err = ('rejected', e.result, e.source, e.diagnostic)
+    except exceptions.AssociationAbortedError as e:
+        err = ('aborted', e.source, e.reason_diag)
+    want = ('rejected', a, b, c) if inner_kind == 'rejected' else ('aborted', b, c)
+    ok = err == want and reached_inner_body == (inner_kind == 'aborted')
+    kinds_o = [w[0] for w in so.sent]
+    ok = ok and kinds_o == [1, 7]                    # outer: its request, then exactly one A-ABORT (no release)
+    kinds_i = [w[0] for w in si.sent]
+    ok = ok and kinds_i[:1] == [1] and 5 not in kinds_i and so.closed
+    deep(ok and b == 3 and c == 7)
+    return ok
+
+
